@@ -22,6 +22,8 @@ TEMPLATES = {
     'mkC': {'creates': 'C'}, 'solW': {'creates': 'S'}, 'solA': {'creates': 'S'}, 'fromA': {'creates': 'F'},
     # diluted with a solvent the stock does not contain (kept out of the program enumeration: used by explicit cells only)
     'fromAd': {'creates': 'F', 'extra': True},
+    # two solutes, listed in non-alphabetical order, each with its own concentration
+    'sol2': {'creates': 'S', 'extra': True},
     'solC': {'needs': 'C', 'creates': 'S'}, 'A>C': {'needs': 'C'}, 'C>B': {'needs': 'C'},
 }
 WELLS = [(0, 0), (0, 1), (1, 0), (1, 1)]
@@ -55,7 +57,10 @@ class Cast:
         env = h.env
         self.lib = lib = Lib(h, SUBS)
         self.water, self.salt, self.dmso = lib['water'], lib['NaCl'], lib['DMSO']
-        A = env.Container('A')
+        a_cap = h.p.get('a_cap') if isinstance(h.p, dict) else None
+        # (a declared container may carry the name of a substance, as in the library's own examples: 'water', 'DMSO')
+        a_name = (h.p.get('a_name') if isinstance(h.p, dict) else None) or 'A'
+        A = env.Container(a_name, a_cap) if a_cap else env.Container(a_name)
         A.contents[self.water] = h.real('A.water', 10**4, 10**6)
         A.contents[self.salt] = h.real('A.NaCl', 10, 10**4)
         set_volume(h, lib, A)
@@ -78,7 +83,7 @@ class Cast:
             return {'T': h.real(f"T{i}", 200, 5000)}
         if t in ('dilA', 'dilAn'):
             return {'c': h.real(f"c{i}", Fr(1, 1000), 5)}
-        if t in ('solW', 'solA', 'solC'):
+        if t in ('solW', 'solA', 'solC', 'sol2'):
             return {'q': h.real(f"q{i}", 1, 3000)}
         if t in ('fromA', 'fromAd'):
             return {'q': h.real(f"q{i}", 1, 3000), 'c': h.real(f"c{i}", Fr(1, 1000), 5)}
@@ -91,7 +96,7 @@ class Cast:
 
 USES = {
     'A>Psub': 'AP', 'Psub>B': 'PB', 'A>B': 'AB', 'A>Pr': 'AP', 'Pc>B': 'PB', 'P11>Pr2': 'P', 'Pr1>Pr2': 'P', 'rmB': 'B', 'rmPr': 'P', 'rmP': 'P',
-    'fillB': 'B', 'fillP': 'P', 'fillS': 'P', 'dilA': 'A', 'dilAn': 'A', 'mkC': '', 'solW': '', 'solA': 'A', 'fromA': 'A', 'fromAd': 'A',
+    'fillB': 'B', 'fillP': 'P', 'fillS': 'P', 'dilA': 'A', 'dilAn': 'A', 'mkC': '', 'solW': '', 'solA': 'A', 'fromA': 'A', 'fromAd': 'A', 'sol2': '',
     'solC': '', 'A>C': 'A', 'C>B': 'B',
 }
 
@@ -179,6 +184,9 @@ def add_step(cast: Cast, rec, t, v, placeholders):
                                                 total_quantity=f"{v['q']} uL")
     elif t == 'fromA':
         placeholders['F'] = rec.create_solution_from(A, salt, f"{v['c']} M", water, f"{v['q']} uL", name='F')
+    elif t == 'sol2':
+        placeholders['S'] = rec.create_solution([salt, cast.dmso], water, name='S', concentration=['0.1 M', '0.5 M'],
+                                                total_quantity=f"{v['q']} uL")
     elif t == 'fromAd':
         placeholders['F'] = rec.create_solution_from(A, salt, f"{v['c']} M", cast.dmso, f"{v['q']} uL", name='F')
     elif t == 'A>C':
@@ -261,6 +269,10 @@ def eager_step(cast: Cast, cur: dict, t, v):
     if t == 'fromA':
         cur['A'], cur['F'] = C.create_solution_from(cur['A'], salt, f"{v['c']} M", water, f"{v['q']} uL", name='F')
         return ['A', 'F'], discarded
+    if t == 'sol2':
+        cur['S'] = C.create_solution([salt, cast.dmso], water, name='S', concentration=['0.1 M', '0.5 M'],
+                                     total_quantity=f"{v['q']} uL")
+        return ['S'], discarded
     if t == 'fromAd':
         cur['A'], cur['F'] = C.create_solution_from(cur['A'], salt, f"{v['c']} M", cast.dmso, f"{v['q']} uL", name='F')
         return ['A', 'F'], discarded
